@@ -10,20 +10,20 @@ Local Open Scope Z_scope.
 Definition w_same_var : program :=
   mkProg [(0%nat, ELit [97; 98])]
          [mkFun [mkParam 1%nat false; mkParam 2%nat true]
-                [SAssign 2%nat (ECat (EVar 2%nat) (ELit [88])); SDecl 3%nat (EVar 1%nat); SPrint (EVar 3%nat)] None]
+                [SAssign 2%nat (ECat (EVar 2%nat) (ELit [88])); SDecl 3%nat (EVar 1%nat); SPrint (EVar 3%nat)] None false]
          [SCall None 0%nat [AVal (EVar 0%nat); ARef 0%nat]; SPrint (EVar 0%nat)].
 
 (* the same with an in-place change: r[1] := 'X'; print p  — no freed memory, just the wrong value *)
 Definition w_same_var_inplace : program :=
   mkProg [(0%nat, ELit [97; 98])]
          [mkFun [mkParam 1%nat false; mkParam 2%nat true]
-                [SAssignIdx 2%nat (EInt 1) (EInt 88); SPrint (EVar 1%nat)] None]
+                [SAssignIdx 2%nat (EInt 1) (EInt 88); SPrint (EVar 1%nat)] None false]
          [SCall None 0%nat [AVal (EVar 0%nat); ARef 0%nat]; SPrint (EVar 0%nat)].
 
 (* f(p): t := "n"; print p.      main: f(t); print t      (a callee that writes a global it received by value) *)
 Definition w_global : program :=
   mkProg [(0%nat, ELit [97; 98])]
-         [mkFun [mkParam 1%nat false] [SAssign 0%nat (ELit [110]); SPrint (EVar 1%nat)] None]
+         [mkFun [mkParam 1%nat false] [SAssign 0%nat (ELit [110]); SPrint (EVar 1%nat)] None false]
          [SCall None 0%nat [AVal (EVar 0%nat)]; SPrint (EVar 0%nat)].
 
 (* f(p, Referenz r, n): if n then (lokal := "l"; f(lokal, p, 0)); r := "c".
@@ -33,7 +33,7 @@ Definition w_recursion : program :=
   mkProg [(0%nat, ELit [97; 98]); (4%nat, ELit [117])]
          [mkFun [mkParam 1%nat false; mkParam 2%nat true; mkParam 5%nat false]
                 [SIf (EVar 5%nat) [SDecl 6%nat (ELit [108]); SCall None 0%nat [AVal (EVar 6%nat); ARef 1%nat; AVal (EInt 0)]] [];
-                 SAssign 2%nat (ELit [99])] None]
+                 SAssign 2%nat (ELit [99])] None false]
          [SCall None 0%nat [AVal (EVar 0%nat); ARef 4%nat; AVal (EInt 1)]; SPrint (EVar 0%nat); SPrint (EVar 4%nat)].
 
 (* On the pinned tree each of these read freed or changed storage at -O 2 (replayed by checks/c08.py and
@@ -65,3 +65,35 @@ Lemma former_witnesses_agree :
 Proof.
   split; [apply w_same_var_runs|split; [apply w_same_var_inplace_runs|split; [apply w_global_runs|apply w_recursion_runs]]].
 Qed.
+
+(* ---------------------------------------------------------------------------------------------- *)
+(* generic instantiations (defect of f920b86, repaired by 9b42dd9)                                 *)
+(* kern(p, x): p[1] := x; return p.    szene(n): a := [1;2;3] (LOCAL); b := kern(a, 9); print a; print b.
+   Names: 1 = p, 2 = x, 3 = n, 4 = a, 5 = b. *)
+Definition w_generic (nometa : bool) : program :=
+  mkProg []
+         [mkFun [mkParam 1%nat false; mkParam 2%nat false] [SAssignIdx 1%nat (EInt 1) (EVar 2%nat)] (Some (EVar 1%nat)) nometa;
+          mkFun [mkParam 3%nat false]
+                [SDecl 4%nat (ELit [1; 2; 3]); SDecl 5%nat (ELit []); SCall (Some 5%nat) 0%nat [AVal (EVar 4%nat); AVal (EInt 9)];
+                 SPrint (EVar 4%nat); SPrint (EVar 5%nat)] None false]
+         [SCall None 1%nat [AVal (EInt 0)]].
+
+(* the run with a GIVEN table instead of the one `analyse` computes *)
+Definition run_with (elide : bool) (mt : meta) (fuel : nat) (p : program) : res (list outv) :=
+  do r <- init_globals (pglobals p) [] st0;
+  let '(ge, st) := r in
+  do st' <- exec elide mt (pfuns p) ge fuel ge (pmain p) (set_fbase st (length (vars st)));
+  Ok (out st').
+
+Lemma w_generic_facts :
+  (* f920b86: the body of the instantiation was never visited, every parameter stayed "constant": the callee's
+     element assignment lands in the caller's local list *)
+  run_with true [[true; true]; [true]] 50 (w_generic false) = Ok [OSeq [9; 2; 3]; OSeq [9; 2; 3]] /\
+  run_with false [[true; true]; [true]] 50 (w_generic false) = Ok [OSeq [1; 2; 3]; OSeq [9; 2; 3]] /\
+  (* 9b42dd9: a same-module instantiation is analysed like any function *)
+  analyse (pfuns (w_generic false)) = [[false; true]; [true]] /\
+  run_elide 50 (w_generic false) = Ok [OSeq [1; 2; 3]; OSeq [9; 2; 3]] /\
+  (* an instantiation made from another module has no table: never elided *)
+  analyse (pfuns (w_generic true)) = [[false; false]; [true]] /\
+  run_elide 50 (w_generic true) = Ok [OSeq [1; 2; 3]; OSeq [9; 2; 3]].
+Proof. repeat split; vm_compute; reflexivity. Qed.
